@@ -299,6 +299,17 @@ func (d *Decls) typeTag(t types.Type) int {
 	return v
 }
 
+// typeTagNamed: a tag for a type known by name only (types of packages that need not be loaded)
+func (d *Decls) typeTagNamed(k string) int {
+	if v, ok := d.tagOf[k]; ok {
+		return v
+	}
+	v := len(d.tagOf) + 1
+	d.tagOf[k] = v
+	d.tagTypes = append(d.tagTypes, nil)
+	return v
+}
+
 // box/unbox for non-pointer dynamic values in interfaces
 func (d *Decls) boxFuns(t types.Type) (box, unbox string) {
 	n := mangle(typeName(t))
